@@ -443,7 +443,7 @@ func runC03(c *Ctx) {
 // name behind; O_EXCL would make every later write of that file fail).
 func c03StagingOpen(c *Ctx, fn *ssa.Function, open ssa.CallInstruction, rs RenameSite) {
 	const rule = "R7-staging-open-replaces-leftover"
-	const oCreate, oExcl, oTrunc = 0x40, 0x80, 0x200
+	_, _, _, oCreate, oExcl, oTrunc := osOpenFlags()
 	var check func(call ssa.CallInstruction, depth int) (decided bool, ok bool, why string)
 	check = func(call ssa.CallInstruction, depth int) (bool, bool, string) {
 		switch calleeName(call) {
@@ -498,7 +498,7 @@ func isParamValue(v ssa.Value) bool {
 // logs, or O_EXCL for names that are unique by construction.  Without it the stale tail
 // of a longer leftover survives behind the new content.
 func createTruncRule(c *Ctx, rule string) {
-	const oWronly, oRdwr, oAppend, oCreate, oExcl, oTrunc = 0x1, 0x2, 0x400, 0x40, 0x80, 0x200
+	oWronly, oRdwr, oAppend, oCreate, oExcl, oTrunc := osOpenFlags()
 	n := 0
 	for _, fn := range c.P.ProdFuncs() {
 		for _, call := range callsTo(fn, nameIs("os.OpenFile")) {
